@@ -43,6 +43,7 @@ def hierarchy(draw):
         for k in range(draw(st.integers(0, 1))):
             d["cmeths"].append(["%s_c%d" % (c.lower(), k), lit()])
         d["sclass"] = draw(st.integers(0, 3)) == 0
+        d["sclass_mid"] = draw(st.booleans())
         if draw(st.integers(0, 9)) < 4:
             v = draw(st.sampled_from(["private", "protected"]))
             d["imeths"].append(["%s_%s" % (c.lower(), v[:4]), lit(), v])
@@ -109,7 +110,13 @@ def render_and_model(case):
             imeth[c][name] = LIT[l][1]
             vis[c][name] = "public"
             lines += [ind + "  def %s" % name, ind + "    %s" % LIT[l][0], ind + "  end"]
-        if d["sclass"] and d["cmeths"]:
+        nonpub = [m for m in d["imeths"] if m[2] != "public"]
+        sclass_mid = bool(d.get("sclass_mid") and d["sclass"] and d["cmeths"] and nonpub)
+        if sclass_mid:
+            # the singleton block sits inside the visibility section further down and ends on a bare keyword of the same kind
+            for name, l in d["cmeths"]:
+                cmeth[c][name] = LIT[l][1]
+        elif d["sclass"] and d["cmeths"]:
             lines.append(ind + "  class << self")
             for name, l in d["cmeths"]:
                 cmeth[c][name] = LIT[l][1]
@@ -122,6 +129,12 @@ def render_and_model(case):
         for name, l, v in d["imeths"]:
             if v != "public":
                 lines.append(ind + "  " + v)
+                if sclass_mid:
+                    sclass_mid = False
+                    lines.append(ind + "  class << self")
+                    for cname, cl in d["cmeths"]:
+                        lines += [ind + "    def %s" % cname, ind + "      %s" % LIT[cl][0], ind + "    end"]
+                    lines += [ind + "    " + v, ind + "  end"]
                 imeth[c][name] = LIT[l][1]
                 vis[c][name] = v
                 lines += [ind + "  def %s" % name, ind + "    %s" % LIT[l][0], ind + "  end"]
